@@ -601,9 +601,12 @@ def discover {ρ μ ω} (im : Meta ρ μ ω) (useRw useMod useVoi : Bool) (f : N
 def getFrame {ρ μ ω β} (im : Meta ρ μ ω) (useRw useMod useVoi : Bool) (apply : Found ρ μ ω → Nat → β) (f : Nat) : β :=
   apply (discover im useRw useMod useVoi f) f
 
-/-- `get_frames`: one transform built for frame 0, reused while `applies_to_all_frames` -/
+/-- `get_frames`: one transform built for the first requested frame, reused while `applies_to_all_frames` -/
 def getFrames {ρ μ ω β} (im : Meta ρ μ ω) (useRw useMod useVoi : Bool) (apply : Found ρ μ ω → Nat → β) (fs : List Nat) : List β :=
-  let d0 := discover im useRw useMod useVoi 0
-  fs.map fun f => if d0.all then apply d0 f else apply (discover im useRw useMod useVoi f) f
+  match fs with
+  | [] => []
+  | f0 :: _ =>
+    let d0 := discover im useRw useMod useVoi f0
+    fs.map fun f => if d0.all then apply d0 f else apply (discover im useRw useMod useVoi f) f
 
 end HdVerif.PixelPipeline
